@@ -71,6 +71,32 @@ fn payload(r: &mut Rng, sizes: &[usize]) -> String {
 
 pub fn gen_history(r: &mut Rng, sh: &Shape) -> Vec<Act> {
     let mut acts = vec![];
+    if sh.name == "long-log-small-rows" {
+        // 220-300 small autocommit inserts push the log beyond its first 40 KiB block; then a checkpoint, then an
+        // ordinary short history: the commits after the checkpoint are logged by a writer that has just been truncated
+        let n = r.range(220, 300);
+        for id in 1..=n {
+            let p = format!("a{}{}", id, payload(r, &[8, 24]));
+            acts.push(Act::Auto(format!("INSERT INTO t VALUES ({}, '{}')", id, p), vec![(id, p)], vec![]));
+        }
+        acts.push(Act::Flush);
+        let mut next_id = n + 1;
+        for _ in 0..sh.steps {
+            match r.below(6) {
+                0 => acts.push(Act::Flush),
+                1 => {
+                    let id = r.range(1, n);
+                    acts.push(Act::Auto(format!("DELETE FROM t WHERE id = {}", id), vec![], vec![id]));
+                }
+                _ => {
+                    let p = format!("b{}{}", next_id, payload(r, sh.row_bytes));
+                    acts.push(Act::Auto(format!("INSERT INTO t VALUES ({}, '{}')", next_id, p), vec![(next_id, p)], vec![]));
+                    next_id += 1;
+                }
+            }
+        }
+        return acts;
+    }
     if sh.name == "steal-and-rollback" {
         // a six-page cache and a read-only wide table: scanning it between the statements of a session pushes the
         // session's dirty page out to the data file (steal) before the session ends
@@ -304,7 +330,7 @@ pub fn record(acts: &[Act], cfg: DBConfig) -> Option<Recorded> {
             Act::Commit(s) => match sessions.remove(s) {
                 Some((mut se, i2, d2)) => {
                     let r = se.commit_transaction();
-                    std::mem::forget(se); // Drop would log another abort; the transaction has ended
+                    drop(se); // like any client: the session object goes away after COMMIT
                     (r.is_ok(), Some((i2, d2)))
                 }
                 None => (false, None),
@@ -312,7 +338,7 @@ pub fn record(acts: &[Act], cfg: DBConfig) -> Option<Recorded> {
             Act::Rollback(s) => match sessions.remove(s) {
                 Some((mut se, _, _)) => {
                     let r = se.abort_transaction();
-                    std::mem::forget(se);
+                    drop(se);
                     (r.is_ok(), None)
                 }
                 None => (false, None),
@@ -520,6 +546,9 @@ pub fn enumerate(rec: &Recorded, check: &str, shape: &Shape, seed_tag: &str, nes
     let mut open_writers: std::collections::BTreeSet<usize> = Default::default();
     let mut ckpt_with_uncommitted = false;
     let mut last_call = 0usize;
+    // what was acknowledged when the last checkpoint completed: losing such a row means the data file was damaged,
+    // losing a younger one means the log / redo lost it
+    let mut at_last_ckpt: Contents = Contents::new();
     let mut open_idle: std::collections::BTreeSet<usize> = Default::default();
     let script: Vec<String> = rec.acts.iter().map(|a| a.show()).collect();
     let mut k = 0usize;
@@ -558,6 +587,9 @@ pub fn enumerate(rec: &Recorded, check: &str, shape: &Shape, seed_tag: &str, nes
             Ev::Ack(n, ok) => {
                 inflight = None;
                 if *ok {
+                    if let Some(Act::Flush) = rec.acts.get(*n) {
+                        at_last_ckpt = acked.clone();
+                    }
                     if let Some(Act::In(s, ..)) = rec.acts.get(*n) {
                         open_writers.insert(*s);
                         open_idle.remove(s);
@@ -678,7 +710,10 @@ pub fn enumerate(rec: &Recorded, check: &str, shape: &Shape, seed_tag: &str, nes
                     if !missing.is_empty() {
                         report::count("class.acked-lost", 1);
                         if check == "C01" {
-                            let sig = if shape.dirty { format!("C01:acked-lost:[shape.{}]", shape.name) } else if ckpt_with_uncommitted { "C01:acked-lost:[ckpt-with-uncommitted-writes]".to_string() } else if in_ckpt { "C01:acked-lost:crash-inside-checkpoint".to_string() } else { format!("C01:acked-lost:{}:[{}]", phase, feat) };
+                            let sig = if shape.dirty { format!("C01:acked-lost:[shape.{}]", shape.name) } else if ckpt_with_uncommitted { "C01:acked-lost:[ckpt-with-uncommitted-writes]".to_string() } else if in_ckpt { "C01:acked-lost:crash-inside-checkpoint".to_string() } else {
+                                let older = missing.iter().any(|id| at_last_ckpt.contains_key(id));
+                                format!("C01:acked-lost:{}:{}:[{}]", if older { "checkpointed-row" } else { "since-last-checkpoint" }, phase, feat)
+                            };
                             report::violation(&sig, &format!("image after mutation {} ({}): {} acknowledged rows are missing (ids {:?}…); recovered {} rows, acknowledged {}", k, phase, missing.len(), &missing[..missing.len().min(5)], c.len(), acked.len()), case());
                         }
                     }
@@ -756,7 +791,8 @@ fn nested(dir: &Path, files: &BTreeMap<String, Vec<u8>>, rec: &Recorded, first: 
     let (third, _) = open_image(dir, rec.cfg, false);
     report::count("idempotence_checks", 1);
     if third != *first {
-        report::violation("C08:reopen-after-recovery-differs", &format!("recover, close, open: {:?} then {:?}", summary(first), summary(&third)), case());
+        let where_ = if phase == "checkpoint" || phase == "vacuum" || phase == "log-truncate" { "crash-inside-checkpoint".to_string() } else { format!("{}:[{}]", phase, feat) };
+        report::violation(&format!("C08:reopen-after-recovery-differs:{}", where_), &format!("recover, close, open: {:?} then {:?}", summary(first), summary(&third)), case());
     }
     // second-level images
     let mut f2 = files.clone();
@@ -779,7 +815,8 @@ fn nested(dir: &Path, files: &BTreeMap<String, Vec<u8>>, rec: &Recorded, first: 
             Opened::Contents(_) if o2 == *first => {}
             Opened::Contents(_) => {
                 let _ = (phase, feat);
-                report::violation("C08:recovery-not-convergent", &format!("crash after mutation {} of {} inside recovery, then recovery: {:?}; uninterrupted recovery: {:?}", j + 1, rmuts.len(), summary(&o2), summary(first)), case());
+                let where_ = if phase == "checkpoint" || phase == "vacuum" || phase == "log-truncate" { "crash-inside-checkpoint".to_string() } else { format!("{}:[{}]", phase, feat) };
+                report::violation(&format!("C08:recovery-not-convergent:{}", where_), &format!("crash after mutation {} of {} inside recovery, then recovery: {:?}; uninterrupted recovery: {:?}", j + 1, rmuts.len(), summary(&o2), summary(first)), case());
                 break;
             }
             Opened::OpenFailed(e) | Opened::Unreadable(e) => {
@@ -817,19 +854,25 @@ pub fn shapes() -> Vec<Shape> {
         Shape { dirty: true, name: "long-log", steps: 60, row_bytes: &[600, 1200], sessions: false, rollback: false, deletes: false, flush: false, vacuum: false, cache: 10000, interleave: false, ddl: false, clean_c02: false },
         Shape { dirty: true, name: "small-cache-steal", steps: 40, row_bytes: &[300, 900], sessions: true, rollback: true, deletes: false, flush: false, vacuum: false, cache: 16, interleave: false, ddl: false, clean_c02: false },
         Shape { dirty: true, name: "with-vacuum", steps: 14, row_bytes: &[8, 60], sessions: true, rollback: false, deletes: true, flush: true, vacuum: true, cache: 10000, interleave: false, ddl: false, clean_c02: false },
+        // last on purpose: recovery of some of its images kills the process on the unchanged tree (open finding)
+        Shape { dirty: false, name: "long-log-small-rows", steps: 10, row_bytes: &[8, 40], sessions: true, rollback: false, deletes: true, flush: true, vacuum: false, cache: 10000, interleave: false, ddl: false, clean_c02: false },
     ]
 }
 
 pub fn run(check: &str, seed: u64, tier: &str, shard: u64, only_shape: Option<&str>) {
     let per_shape = if tier == "thorough" { 40 } else { 3 };
     let mut master = Rng::new(seed ^ shard.wrapping_mul(0xE1E1_E1E1_1234_5678));
-    let mut nested_budget = if tier == "thorough" { 400 } else { 30 };
+    let per_shape_nested = if tier == "thorough" { 60 } else { 5 };
     for sh in shapes() {
+        // second-level (crash inside recovery, recover-close-open) budget per shape, so that late shapes get their share
+        let mut nested_budget = per_shape_nested;
         if let Some(o) = only_shape {
             if o != sh.name && o != "x" {
                 continue;
             }
         }
+        // the long histories cost ~900 images each: one per shard in the quick tier
+        let per_shape = if sh.name == "long-log-small-rows" && tier != "thorough" { 1 } else if sh.name == "long-log-small-rows" { 6 } else { per_shape };
         for h in 0..per_shape {
             let mut r = master.fork(h * 131 + fnv(sh.name.as_bytes()) % 1000);
             let acts = gen_history(&mut r, &sh);
@@ -843,7 +886,8 @@ pub fn run(check: &str, seed: u64, tier: &str, shard: u64, only_shape: Option<&s
             report::count(&format!("histories.{}", sh.name), 1);
             report::count("io_mutations_recorded", rec.muts.len() as i64);
             report::count("acked_transactions", rec.acked_ok.iter().filter(|x| **x).count() as i64);
-            report::arm(&format!("{} enumerate {}", check, sh.name), 900);
+            *report::ON_HANG_SIG.lock().unwrap() = Some(format!("e1-{}", sh.name));
+            report::arm_strict(&format!("{} enumerate {}", check, sh.name), if tier == "thorough" { 180 } else { 60 });
             enumerate(&rec, check, &sh, &format!("{}|{}|{}|{}", seed, shard, sh.name, h), &mut nested_budget);
             report::disarm();
             report::done_with();
